@@ -227,7 +227,7 @@ pub struct HostileCase { pub hash_seed: u64, pub setup: Vec<UStep>, pub reqs: Ve
 pub struct C17;
 pub const ENTRIES: [&str; 10] = ["execute_sparql_query", "execute_query_rayon_parallel2_volcano(SELECT)", "execute_sparql_update", "SparqlDatabase::execute_update", "SparqlDatabase::handle_update", "handle_http_request(GET query=)", "handle_http_request(POST application/sparql-query)", "handle_http_request(POST form query=)", "handle_http_request(POST form update=)", "handle_http_request(POST application/sparql-update)"];
 
-const SELECTS: [&str; 25] = [
+const SELECTS: [&str; 28] = [
     "PREFIX e: <http://e/> PREFIX xsd: <http://www.w3.org/2001/XMLSchema#> SELECT ?s WHERE { ?s e:p0 ?o ; e:p1 ?x , ?y . FILTER (?o != \"v1\"@en) }",
     "SELECT ?s WHERE { ?s <http://e/num> ?n FILTER ((?n + 1) >= (2 * 2)) } ORDER BY ?s",
     "SELECT ?s WHERE { ?s a <http://e/Type> . ?s <http://e/p0> \"12\"^^<http://www.w3.org/2001/XMLSchema#integer> } # trailing comment",
@@ -253,6 +253,9 @@ const SELECTS: [&str; 25] = [
     "SELECT ?s ?n WHERE { ?s <http://e/num> ?n FILTER (?n > 1) } ORDER BY DESC(?n) LIMIT 4",
     "SELECT ?s WHERE { ?s d:p0 ?o . ?o h:p1 ?x FILTER (?x != d:n1) }",
     "SELECT ?s WHERE { GRAPH h:g0 { ?s ?p h:n0 } }",
+    "SELECT ?s ?o WHERE { ?s <http://e/p0> ?o } ORDER BY ?s LIMIT 18446744073709551615",
+    "SELECT ?s WHERE { ?s ?p ?o . { SELECT ?s WHERE { ?s <http://e/p1> ?z } LIMIT 9223372036854775808 } } LIMIT 4611686018427387904",
+    "SELECT DISTINCT ?s WHERE { ?s ?p ?o } LIMIT 0",
 ];
 const UPDATES: [&str; 14] = [
     "PREFIX e: <http://e/> INSERT DATA { e:n9 e:p0 e:n8 ; e:p1 \"x\" , \"y\" . }",
@@ -285,7 +288,7 @@ fn mutate(r: &mut Rng, base: &str) -> String {
     let multi = ['é', 'ß', '€', '漢', '😀', '\u{0301}', '\u{200B}', '\u{FEFF}'];
     for _ in 0..(1 + r.usize(3)) {
         let n = chars.len();
-        match r.below(12) {
+        match r.below(13) {
             0 if n > 0 => { chars.remove(r.usize(n)); }
             1 if n > 0 => { let i = r.usize(n); let c = chars[i]; chars.insert(i, c); }
             2 if n > 0 => { chars.truncate(r.usize(n)); }
@@ -297,6 +300,11 @@ fn mutate(r: &mut Rng, base: &str) -> String {
             10 => { // multi-byte character right after a token boundary
                 let idxs: Vec<usize> = chars.iter().enumerate().filter(|(_, c)| **c == ' ' || **c == '{' || **c == '?').map(|(i, _)| i).collect();
                 if !idxs.is_empty() { let i = *r.pick(&idxs); chars.insert(i + 1, *r.pick(&multi)); } }
+            11 => { // replace a number token by an extreme one
+                let starts: Vec<usize> = (0..n).filter(|&i| chars[i].is_ascii_digit() && (i == 0 || !chars[i - 1].is_ascii_alphanumeric())).collect();
+                if !starts.is_empty() { let i = *r.pick(&starts); let mut j = i; while j < chars.len() && chars[j].is_ascii_digit() { j += 1; }
+                    let big = *r.pick(&["18446744073709551615", "18446744073709551616", "9223372036854775807", "4294967296", "99999999999999999999999999", "0", "-1", "1e308", "1e-400"]);
+                    chars.splice(i..j, big.chars()); } }
             _ => { chars.push(*r.pick(&multi)); }
         }
     }
@@ -391,7 +399,7 @@ impl Prop for C17 {
         if c.hash_seed != 0 { out.push(HostileCase { hash_seed: 0, ..c.clone() }); }
         out
     }
-    fn rule(&self) -> String { "A case is one session: a generated update history builds a database state (in a third of the cases its prefix table holds namespaces registered through the Turtle loader or the prefix API, half of those hostile: escape-like sequences next to multi-byte characters, surrogates, empty), then a hostile client sends 8-38 requests (valid SELECTs incl. MIN/MAX/SUM/AVG over NaN/inf lexical forms, every update form and the legacy aliases, any of them optionally behind a RULE / RETRIEVE / REGISTER / ML.PREDICT extension clause, and mutations of those: deletion/duplication/truncation, 2-4-byte characters before/inside/after tokens, unbalanced braces and quotes, NULs, very long tokens) through execute_sparql_query, execute_query_rayon_parallel2_volcano (SELECT only), execute_sparql_update, SparqlDatabase::execute_update, handle_update and the HTTP GET query adapter. After every request: query paths leave quad ids and catalog unchanged, update syntax is refused there, a failed update leaves the dataset unchanged, no entry point unwinds. Distinct = hash of the request list (every case is counted non-trivial when it has >= 8 requests).".into() }
+    fn rule(&self) -> String { "A case is one session: a generated update history builds a database state (in a third of the cases its prefix table holds namespaces registered through the Turtle loader or the prefix API, half of those hostile: escape-like sequences next to multi-byte characters, surrogates, empty), then a hostile client sends 8-38 requests (valid SELECTs incl. MIN/MAX/SUM/AVG over NaN/inf lexical forms, every update form and the legacy aliases, any of them optionally behind a RULE / RETRIEVE / REGISTER / ML.PREDICT extension clause, and mutations of those: deletion/duplication/truncation, 2-4-byte characters before/inside/after tokens, unbalanced braces and quotes, NULs, very long tokens, extreme numbers in place of number tokens and LIMITs up to usize::MAX) through execute_sparql_query, execute_query_rayon_parallel2_volcano (SELECT only), execute_sparql_update, SparqlDatabase::execute_update, handle_update and the HTTP GET query adapter. After every request: query paths leave quad ids and catalog unchanged, update syntax is refused there, a failed update leaves the dataset unchanged, no entry point unwinds. Distinct = hash of the request list (every case is counted non-trivial when it has >= 8 requests).".into() }
     fn assumptions(&self) -> Vec<String> { vec!["RULE / RETRIEVE / REGISTER / ML.PREDICT clauses are in the corpus in front of SELECTs and updates (none of the ten entry points executes them); MODEL / TRAIN declarations are not (they run training code)".into(), "this is seeded mutation of requests inside a stateful session; the simulator's contribution is the state dimension and the per-request whole-state invariant".into()] }
     fn real_vs_stub(&self) -> serde_json::Value { serde_json::json!({"real": ["execute_sparql_query", "execute_query_rayon_parallel2_volcano", "execute_sparql_update", "SparqlDatabase::{execute_update, handle_update, handle_http_request}", "parser", "error_handler"], "simulated": ["the client", "hash keys"], "not_run": ["TCP sockets (run_server)"]}) }
 }
